@@ -36,7 +36,7 @@ def build_key(flavour, extra_defs=()):
     h = hashlib.sha256()
     _hash_tree(h, os.path.join(REPO, 'include'))
     _hash_tree(h, HARNESS, '*')
-    for p in ('pool.py', 'pooldef.py', 'build.py', 'namesdef.py', 'fungdef.py'):
+    for p in ('pool.py', 'pooldef.py', 'build.py', 'namesdef.py', 'fungdef.py', 'ctdef.py'):
         with open(os.path.join(VERIF, 'lib', p), 'rb') as f:
             h.update(f.read())
     tj = os.path.join(VERIF, 'pool', 'tables.json')
@@ -88,6 +88,9 @@ def build(flavour='plain', extra_defs=(), verbose=False, include_dir=None):
                 f.write(text)
         import namesdef
         import fungdef
+        import ctdef
+        with open(os.path.join(bdir, 'ct_gen.cpp'), 'w') as f:
+            f.write(ctdef.gen_cpp())
         ftypes = fungdef.fung_types()
         with open(os.path.join(bdir, 'fung_gen.cpp'), 'w') as f:
             f.write(fungdef.gen_cpp(ftypes))
@@ -101,7 +104,7 @@ def build(flavour='plain', extra_defs=(), verbose=False, include_dir=None):
         cxx = os.environ.get('VERIF_CXX', 'g++')
         flags = ['-std=c++14', '-I' + inc, '-I' + HARNESS, '-I' + bdir, '-pthread', '-w'] + FLAVOURS[flavour] + list(extra_defs)
         srcs = sorted(glob.glob(os.path.join(HARNESS, '*.cpp')) + glob.glob(os.path.join(HARNESS, '*.cc')) +
-                      glob.glob(os.path.join(bdir, 'pool_*.cpp')) + [os.path.join(bdir, 'names_gen.cpp'), os.path.join(bdir, 'fung_gen.cpp')])
+                      glob.glob(os.path.join(bdir, 'pool_*.cpp')) + [os.path.join(bdir, 'names_gen.cpp'), os.path.join(bdir, 'fung_gen.cpp'), os.path.join(bdir, 'ct_gen.cpp')])
         objs = []
 
         def compile_one(src):
